@@ -150,8 +150,7 @@ class RowDenoisingTransformer(BaseEstimator, TransformerMixin):
 
         """
         if scipy.sparse.issparse(X):
-            X.eliminate_zeros()
-            if X.nnz == 0:
+            if np.count_nonzero(X.data) == 0:
                 warn("Cannot fit an empty matrix")
                 return self
             self.background_model_ = np.squeeze(
@@ -221,6 +220,11 @@ class RowDenoisingTransformer(BaseEstimator, TransformerMixin):
             The matrix X with the low-rank effects removed.
 
         """
+        if scipy.sparse.issparse(X):
+            # Explicit zeros must not reach the EM step; drop them from a copy
+            # rather than from the caller's matrix
+            X = X.copy()
+            X.eliminate_zeros()
         self.fit(X, **fit_params)
         if X.nnz == 0:
             return X
